@@ -24,6 +24,151 @@ META = {
 }
 
 
+def _legend_regex(repo, er, gc):
+    """the legend scan written with a regular expression: -> (pattern text, match call, group index used for the name) or None"""
+    import re as _re
+    consts = {}
+    for st in er.node.body:
+        if isinstance(st, ast.Assign) and len(st.targets) == 1 and isinstance(st.targets[0], ast.Name):
+            consts["self." + st.targets[0].id] = st.value
+            consts[er.name + "." + st.targets[0].id] = st.value
+    for st in gc.module.tree.body:
+        if isinstance(st, ast.Assign) and len(st.targets) == 1 and isinstance(st.targets[0], ast.Name):
+            consts[st.targets[0].id] = st.value
+    for st in ast.walk(gc.node):
+        if isinstance(st, ast.Assign) and len(st.targets) == 1 and isinstance(st.targets[0], ast.Name) and isinstance(st.value, ast.Call) and \
+                src(st.value.func) == "re.compile":
+            consts[st.targets[0].id] = st.value
+
+    def pattern_of(e):
+        if isinstance(e, ast.Constant) and isinstance(e.value, str):
+            return e.value
+        if isinstance(e, ast.Call) and src(e.func) == "re.compile" and e.args:
+            return pattern_of(e.args[0])
+        if src(e) in consts:
+            return pattern_of(consts[src(e)])
+        return None
+    for n in ast.walk(gc.node):
+        if isinstance(n, ast.Call) and isinstance(n.func, ast.Attribute) and n.func.attr in ("match", "search", "fullmatch"):
+            if src(n.func.value) == "re" and len(n.args) >= 2:
+                pat = pattern_of(n.args[0])
+            else:
+                pat = pattern_of(n.func.value)
+            if pat is None:
+                continue
+            grp = [g for g in ast.walk(gc.node) if isinstance(g, ast.Call) and isinstance(g.func, ast.Attribute) and g.func.attr == "group" and
+                   len(g.args) == 1 and isinstance(g.args[0], ast.Constant) and isinstance(g.args[0].value, int)]
+            app = [a for a in ast.walk(gc.node) if isinstance(a, ast.Call) and isinstance(a.func, ast.Attribute) and a.func.attr == "append" and a.args]
+            used = [g.args[0].value for g in grp if any(g is x or any(y is g for y in ast.walk(x)) for a in app for x in a.args)]
+            if not used:
+                from ..astutil import Canon
+                cn = Canon(Canon.single_defs(gc.node.body))
+                for a in app:
+                    e_ = cn.expand(a.args[0])
+                    used += [g.args[0].value for g in ast.walk(e_) if isinstance(g, ast.Call) and isinstance(g.func, ast.Attribute) and
+                             g.func.attr == "group" and len(g.args) == 1 and isinstance(g.args[0], ast.Constant)]
+            return pat, n, (used[0] if used else None), n.func.attr
+    return None
+
+
+def _legend_regex_rules(ctx, gc, rx):
+    """legend lines recognised by a regular expression: the expression is parsed (sre parser) and compared with what the property
+    asks: every series index 0..9, and a name that may contain ANY character except the closing quote"""
+    import re._parser as sp
+    import re._constants as sc
+    pat, call, gidx, how = rx
+    try:
+        tree = sp.parse(pat)
+    except Exception as e:
+        ctx.inconclusive("PAIRIO", "C20.legend.range", "legend regular expression could not be parsed", gc.where, pat, witness=str(e))
+        return
+    printable = {chr(c) for c in range(0x20, 0x7f)}
+
+    def accepted(items):
+        """printable characters accepted by one IN set / single item, None if not derivable"""
+        acc = set()
+        neg = False
+        for op, av in items:
+            if op is sc.NEGATE:
+                neg = True
+            elif op is sc.LITERAL:
+                acc.add(chr(av))
+            elif op is sc.RANGE:
+                acc |= {chr(c) for c in range(av[0], av[1] + 1)}
+            elif op is sc.CATEGORY:
+                import re as _re
+                cat = {sc.CATEGORY_DIGIT: r"\d", sc.CATEGORY_WORD: r"\w", sc.CATEGORY_SPACE: r"\s", sc.CATEGORY_NOT_DIGIT: r"\D",
+                       sc.CATEGORY_NOT_WORD: r"\W", sc.CATEGORY_NOT_SPACE: r"\S"}.get(av)
+                if cat is None:
+                    return None
+                acc |= {ch for ch in printable if _re.fullmatch(cat, ch)}
+            else:
+                return None
+        return (printable - acc) if neg else (acc & printable)
+
+    flat = list(tree)
+    # --- series index: literal 's' followed by a digit class (possibly in a group)
+    digit_ok = None
+    for k, (op, av) in enumerate(flat):
+        if op is sc.LITERAL and chr(av) == "s" and k + 1 < len(flat):
+            nop, nav = flat[k + 1]
+            inner = nav[3] if nop is sc.SUBPATTERN else [flat[k + 1]]
+            inner = list(inner)
+            if len(inner) == 1:
+                iop, iav = inner[0]
+                if iop in (sc.MAX_REPEAT, sc.MIN_REPEAT):
+                    iop, iav = list(iav[2])[0] if len(list(iav[2])) == 1 else (None, None)
+                acc = accepted(iav) if iop is sc.IN else (accepted([(iop, iav)]) if iop in (sc.LITERAL, sc.CATEGORY) else None)
+                if acc is not None:
+                    missing = sorted(set("0123456789") - acc)
+                    digit_ok = (not missing, missing)
+            break
+    if digit_ok is None:
+        ctx.inconclusive("PAIRIO", "C20.legend.range", "series index part of the legend expression not recognised", gc.where, pat)
+    else:
+        ctx.check(digit_ok[0], "PAIRIO", "C20.legend.range", "legends s0..s9 (up to ten series) are recognised", gc.where, pat,
+                  witness="the expression misses " + ", ".join("s" + d for d in digit_ok[1]))
+    # --- prefix
+    lit = "".join(chr(av) for op, av in flat if op is sc.LITERAL)
+    anchored = how in ("match", "fullmatch") or (flat and flat[0][0] is sc.AT)
+    ctx.check(lit.startswith("@ s") and " legend" in lit and anchored, "PAIRIO", "C20.legend.pattern", "a legend line is recognised by the prefix "
+              "'@ s<i> legend'", gc.where, pat, witness=f"literal part {lit!r}, anchored={anchored}")
+    # --- name: the group used for the column name
+    groups = [(av[0], list(av[3])) for op, av in flat if op is sc.SUBPATTERN]
+    body = dict(groups).get(gidx)
+    verdict, wit = None, ""
+    if body is not None and len(body) == 1 and body[0][0] in (sc.MAX_REPEAT, sc.MIN_REPEAT):
+        lo_, hi_, sub = body[0][1]
+        sub = list(sub)
+        if len(sub) == 1:
+            sop, sav = sub[0]
+            acc = printable if sop is sc.ANY else (accepted(sav) if sop is sc.IN else None)
+            if acc is not None and lo_ <= 1:
+                missing = sorted(printable - acc - {'"'})
+                verdict = not missing
+                wit = "characters that may occur in a gromacs legend but are not accepted inside the quotes: " + " ".join(missing[:24]) + \
+                      " -> such a legend line is silently skipped and every later name is attached to the previous column"
+    if verdict is None:
+        ctx.inconclusive("PAIRIO", "C20.legend.text", "extraction of the legend text by the regular expression not recognised", gc.where, pat)
+    else:
+        ctx.check(verdict, "PAIRIO", "C20.legend.text", "the column name is the text between the quotes of the legend line (any character but the "
+                  "quote)", gc.where, pat, witness=wit)
+    # --- order
+    rets = [n.value for n in ast.walk(gc.node) if isinstance(n, ast.Return) and n.value is not None]
+    ret_names = {r.id for r in rets if isinstance(r, ast.Name)}
+    app = [a for a in ast.walk(gc.node) if isinstance(a, ast.Call) and isinstance(a.func, ast.Attribute) and a.func.attr == "append"]
+    reorder = [n for n in ast.walk(gc.node) if isinstance(n, ast.Call) and (
+        (isinstance(n.func, ast.Name) and n.func.id in ("sorted", "reversed", "set")) or
+        (isinstance(n.func, ast.Attribute) and n.func.attr in ("sort", "reverse", "insert")))]
+    if reorder:
+        ctx.violate("ORD", "C20.legend.order", "the list of column names is re-ordered after the legends were read in file order", gc.where,
+                    src(reorder[0])[:100], witness="column k of the table no longer carries the k-th legend")
+    elif app and isinstance(app[0].func.value, ast.Name) and app[0].func.value.id in ret_names:
+        ctx.ok("ORD", "C20.legend.order", "legends are appended in file order to the returned list", gc.where)
+    else:
+        ctx.inconclusive("ORD", "C20.legend.order", "accumulation of the legend names not recognised", gc.where)
+
+
 def run(ctx, repo, tier):
     # ------------------------------------------------------------ io.py writer / reader
     wt = W.io_writer_table(repo)
@@ -75,8 +220,11 @@ def run(ctx, repo, tier):
             continue
         ctx.check(r["family"] == rec["family"], "PAIRIO", f"C20.io.load_{item}.pair", f"load_{item} uses the loader that matches the saver "
                   f"of {name}", r["fi"].where, src(r["call"])[:120], witness=f"saver family {rec['family']}, loader family {r['family']}")
-        ctx.check(r["path_ok"] and not r["extra"], "PAIRIO", f"C20.io.load_{item}.path", "the reader loads its path argument without "
-                  "options that alter the content", r["fi"].where, src(r["call"])[:120], witness=str(r["extra"]))
+        if r["path_ok"] and not r["extra"] and r.get("unknown"):
+            ctx.inconclusive("PAIRIO", f"C20.io.load_{item}.path", "loader options not recognised", r["fi"].where, src(r["call"])[:120], witness=str(r["unknown"]))
+        else:
+            ctx.check(r["path_ok"] and not r["extra"], "PAIRIO", f"C20.io.load_{item}.path", "the reader loads its path argument without "
+                      "options that alter the content", r["fi"].where, src(r["call"])[:120], witness=str(r["extra"]))
     # ------------------------------------------------------------ workflow rule run_grid
     wf = Workflows(repo.root)
     rule, table, ctor, f = W.run_grid_table(wf)
@@ -218,7 +366,10 @@ def run(ctx, repo, tier):
                     r_._fstring = comp.elt
                     rng = [r_]
     ctx.instance("PAIRIO", 4)
-    if not rng:
+    rx = _legend_regex(repo, er, gc) if not rng else None
+    if not rng and rx is not None:
+        _legend_regex_rules(ctx, gc, rx)
+    elif not rng:
         ctx.inconclusive("PAIRIO", "C20.legend.range", "legend scan loop not recognised", gc.where)
     else:
         a = rng[0].iter.args
@@ -314,6 +465,24 @@ def run(ctx, repo, tier):
     rets = [n for n in ast.walk(gc.node) if isinstance(n, ast.Return) and n.value is not None]
     ctx.check(len(rets) == 1 and first and src(rets[0].value) == src(first[0].targets[0]), "PAIRIO", "C20.legend.return", "that list is what is "
               "returned", gc.where, witness=src(rets[0].value) if rets else "")
+    # row k of the parsed table is data line k of the file (= frame k of the pseudo-trajectory): nothing between the parser and the caller
+    # may re-order or drop rows
+    ROW_CHANGING = {"sort_values": "sorts the rows by a column", "sort_index": "sorts the rows by the index", "sample": "shuffles / samples rows",
+                    "drop_duplicates": "drops repeated rows", "dropna": "drops rows with missing values", "nlargest": "selects and re-orders rows",
+                    "nsmallest": "selects and re-orders rows", "reindex": "re-orders rows", "head": "keeps only leading rows",
+                    "tail": "keeps only trailing rows", "query": "filters rows", "drop": "drops rows / columns"}
+    ctx.instance("ORD")
+    rowbad = [(f_, n) for f_ in (le, ls) for n in ast.walk(f_.node) if isinstance(n, ast.Call) and isinstance(n.func, ast.Attribute)
+              and n.func.attr in ROW_CHANGING and not (isinstance(n.func.value, ast.Name) and n.func.value.id in ("np", "os", "random"))]
+    if rowbad:
+        f_, n = rowbad[0]
+        ctx.violate("ORD", "C20.table.rows", f"the parsed energy table is post-processed by .{n.func.attr}(), which {ROW_CHANGING[n.func.attr]}: row k "
+                    "of the result is no longer data line k of the file, so energies are paired with the wrong frames whenever the rows are not "
+                    "already in that order (e.g. time stamps that restart)", f_.where, src(n)[:160],
+                    witness=f"{n.func.attr} between pandas.read_csv and the returned table")
+    else:
+        ctx.ok("ORD", "C20.table.rows", "no row-reordering / row-dropping DataFrame method is applied between the parser and the returned table",
+               le.where)
     # single column
     r1 = [n for n in ast.walk(ls.node) if isinstance(n, ast.Return) and n.value is not None]
     ctx.instance("PAIRIO")
